@@ -74,3 +74,22 @@ package object
 //@ dynensures[raf.names] ResolveAttrFunc: result0 == uf("raf.res", Object, arg0) && result1 == uf("raf.err", error, arg0)
 //@ ensures[C12.dyn.first] old(d.value) == nil && result1 == nil ==> result0 == uf("raf.res", Object, ctx)
 //@ ensures[C12.dyn.percontext] result1 == nil ==> result0 == uf("raf.res", Object, ctx)
+
+// C08: a Go float32 reaches the script as the float64 of exactly that value (widening is exact: every float32 has one
+// float64 value; seed C08j went through the shortest decimal text, so float32(0.1) arrived as 0.1 instead of
+// 0.10000000149011612 and MaxFloat32 arrived above MaxFloat32).
+//@ func (*Float32Converter).From
+//@ props C08
+//@ safety
+//@ requires[C08.exacttype] typeof(obj) == float32
+//@ ensures[C08.from.value] err == nil ==> typeof(result0) == *Float && ref(result0) != nil && (result0.(*Float).value == float64(obj.(float32)) || isnan(float64(obj.(float32))))
+
+// C01: a range / for-in loop over a list follows the list as it is when each step is taken: Next reads the live list,
+// so items the body appends are visited and a loop over a list the body shortens ends at the new length (seed C01j
+// walked a snapshot of the slice header taken when the iterator was made).
+//@ func (*ListIter).Next
+//@ props C01 C16
+//@ requires iter != nil && iter.l != nil
+//@ modifies iter.pos, iter.current
+//@ ensures[C01,C16.listiter.live.more] old(iter.pos) + 1 < int64(len(iter.l.items)) ==> result1 && iter.pos == old(iter.pos) + 1 && result0 == iter.l.items[int(iter.pos)]
+//@ ensures[C01,C16.listiter.live.end] !(old(iter.pos) + 1 < int64(len(iter.l.items))) ==> !result1 && iter.pos == old(iter.pos)
